@@ -278,6 +278,8 @@ convert(struct func *f, struct type *dst, struct type *src, struct value *l)
 		return NULL;
 	if (!(src->prop & PROPREAL) || !(dst->prop & PROPREAL))
 		fatal("internal error; unsupported conversion");
+	if (src->size == 16 || dst->size == 16)
+		error(&tok.loc, "long double is not yet supported");
 	if (dst->kind == TYPEBOOL) {
 		class = 'w';
 		if (src->prop & PROPINT) {
